@@ -260,9 +260,13 @@ def run(ctx: Ctx):
     for (n, maxj, maxlen, maxd) in plans:
         for kind in MATKINDS:
             states, inits, edges = ctx.graph("Merge", ctx.cfg(f"g_{n}_{kind}.cfg", cfg_text(n, kind, maxj, maxlen, maxd, invs=INVS_LIGHT)))
-            for storage in ("dense", "csr"):
-                ne, unreached = replay_graph(ctx, n, kind, storage, states, inits, edges, rng,
-                                             variants=(kind in ("generic", "zerorow")) or thorough)
+            if thorough:
+                todo = [("dense", True), ("csr", True)]
+            else:     # quick: every kind once per storage form somewhere, spelling variants on the generic matrix
+                todo = {"generic": [("dense", True), ("csr", True)], "zerorow": [("csr", False)],
+                        "symmetric": [("dense", False)], "adjacency": [("csr", False)]}[kind]
+            for storage, variants in todo:
+                ne, unreached = replay_graph(ctx, n, kind, storage, states, inits, edges, rng, variants=variants)
                 total_edges += ne
                 ctx.cov["traces_validated_against_impl"] += ne
                 if unreached and not ctx.violations and not ctx.known_hit:
@@ -275,7 +279,8 @@ def run(ctx: Ctx):
     ctx.cov["graph_edges_replayed"] = total_edges
 
     # 3. C->S: random long histories on larger n
-    recs = random_histories(ctx, 300 if thorough else 60, 9, 12, rng) + random_histories(ctx, 200 if thorough else 40, 6, 10, rng)
+    recs = (random_histories(ctx, 300 if thorough else 80, 9, 12, rng) + random_histories(ctx, 200 if thorough else 40, 6, 10, rng)
+            + random_histories(ctx, 200 if thorough else 60, 13, 10, rng) + random_histories(ctx, 100 if thorough else 20, 17, 8, rng))
     for i, r in enumerate(recs):
         r["tid"] = i
     rejects = ctx.validate("Merge_Trace", "Merge_Trace.cfg", recs, name="merge_hist")
